@@ -23,16 +23,60 @@ for d in sorted(glob.glob(os.path.join(V, 'seeded', '*'))):
     seeds.append('| %s | %s | %s | %s | %s |' % (os.path.basename(d), m.get('property', ''), str(m.get('needs', ''))[:200].replace('|', '/').replace('\n', ' '),
                                                det[:240].replace('|', '/'), str(m.get('detected_as', ''))[:120].replace('|', '/')))
 seeds += ['', '%d seeded mutations kept; %d were detected by the check as it stood when the seed arrived, %d were missed at first and drove the strengthening named in the row (all but those marked pending are detected now).' % (nd + nm, nd, nm), '', '<!-- AUTO-SEEDS-END -->']
+
+# --- specification inventory -------------------------------------------------
+def _first_sentence(path):
+    txt = open(path).read()
+    m = re.search(r'\(\*+\)\s*\n((?:\(\*.*\*\)\s*\n)+)', txt)
+    body = ''
+    if m:
+        body = ' '.join(re.sub(r'^\(\*\s?|\s*\*\)$', '', ln.strip()) for ln in m.group(1).splitlines())
+    else:
+        m = re.search(r'((?:\\\*.*\n)+)', txt)
+        if m:
+            body = ' '.join(ln.strip()[2:].strip() for ln in m.group(1).splitlines())
+    body = re.sub(r'\s+', ' ', body).strip()
+    cut = re.split(r'(?<=[a-z\)])\.\s', body, maxsplit=1)[0]
+    return cut[:230].replace('|', '/')
+
+def _users(mod):
+    out = []
+    for f in sorted(glob.glob(os.path.join(V, 'harness', 'checks', '*.py')) + glob.glob(os.path.join(V, 'harness', 'extras', '*.py')) + glob.glob(os.path.join(V, 'harness', '*.py'))):
+        t = open(f).read()
+        if re.search(r"['\"/]%s['\"._]" % re.escape(mod), t):
+            out.append(os.path.basename(f)[:-3])
+    return out
+
+layers = (('num', 'carrier'), ('sem', 'A reference semantics'), ('mach', 'B state machine'), ('impl', 'C implementation-shaped'), ('trace', 'D trace specification'), ('cfg', 'bounded instance'))
+inv = ['<!-- AUTO-SPECINV-BEGIN (tools/mkdesign_tables.py) -->', '', '| module | layer | lines | subject (first sentence of the module comment) | run by |', '|---|---|---|---|---|']
+tot = 0; nmod = 0
+alltxt = {}
+for sub, lname in layers:
+    for f in sorted(glob.glob(os.path.join(V, 'spec', sub, '*.tla'))):
+        alltxt[os.path.basename(f)[:-4]] = open(f).read()
+for sub, lname in layers:
+    for f in sorted(glob.glob(os.path.join(V, 'spec', sub, '*.tla'))):
+        mod = os.path.basename(f)[:-4]
+        n = sum(1 for _ in open(f)); tot += n; nmod += 1
+        users = _users(mod)
+        if not users:   # reached through EXTENDS / INSTANCE of a module that is run
+            for other, t in alltxt.items():
+                if other != mod and re.search(r'\b(EXTENDS|INSTANCE)\b[^\n]*\b%s\b' % re.escape(mod), t):
+                    users = sorted(set(users + ['via ' + other]))
+        inv.append('| `%s` | %s | %d | %s | %s |' % (mod, lname, n, _first_sentence(f), ', '.join(users)[:120]))
+inv += ['', '%d modules, %d lines of TLA+.' % (nmod, tot), '', '<!-- AUTO-SPECINV-END -->']
+
 p = os.path.join(V, 'DESIGN.md')
 s = open(p).read()
-for tag, block in (('FINDINGS', lines), ('SEEDS', seeds)):
+for tag, block in (('FINDINGS', lines), ('SEEDS', seeds), ('SPECINV', inv)):
     b, e = '<!-- AUTO-%s-BEGIN' % tag, '<!-- AUTO-%s-END -->' % tag
     txt = '\n'.join(block)
     if b in s:
         i = s.index(b); j = s.index(e) + len(e)
         s = s[:i] + txt + s[j:]
     else:
-        title = '### 10.6 All findings (generated from known_findings.json)' if tag == 'FINDINGS' else '### 10.7 All seeded mutations (generated from seeded/*/meta.json)'
+        title = {'FINDINGS': '### 10.6 All findings (generated from known_findings.json)', 'SEEDS': '### 10.7 All seeded mutations (generated from seeded/*/meta.json)',
+                 'SPECINV': '### 10.12 Specification inventory (generated from spec/)'}[tag]
         s += '\n\n' + title + '\n\n' + txt + '\n'
 open(p, 'w').write(s)
 print('findings', len(k), 'seeds', nd + nm)
